@@ -166,6 +166,42 @@ theorem cwd_pre_nowindow (p : Params) (hw : p.window = 0) :
   (cwdU_pre false p).congr (fun a b _ _ =>
     cwd_eq_cwdU _ p a b (fun x y _ _ => by simp [usesCount, hw]))
 
+/-- the metric a pair is compared with (for nil candidates: irrelevant, fixed to `false`) -/
+def pairMetric (p : Params) (a b : Cand) : Bool :=
+  match a, b with
+  | some x, some y => usesCount p.window x y
+  | _, _ => false
+
+theorem cwd_eq_cwdU_pair (p : Params) (a b : Cand) (m : Bool)
+    (h : ∀ x y, a = some x → b = some y → usesCount p.window x y = m) :
+    compareWithDensity p a b = cwdU m p a b := cwd_eq_cwdU m p a b h
+
+/-- **Antisymmetry holds unconditionally**, for every pair of candidates of any
+    kind: the metric choice is symmetric in the pair. -/
+theorem cwd_antisymm (p : Params) (a b : Cand) :
+    compareWithDensity p b a = - compareWithDensity p a b := by
+  have hsym : ∀ x y : Tip, usesCount p.window y x = usesCount p.window x y := by
+    intro x y; simp only [usesCount, Bool.and_assoc]; rw [Bool.and_comm y.windowed x.windowed]
+  rw [cwd_eq_cwdU (pairMetric p a b) p a b (by
+        intro x y hx hy; subst hx; subst hy; rfl),
+      cwd_eq_cwdU (pairMetric p a b) p b a (by
+        intro y x hy hx; subst hx; subst hy; simp only [pairMetric]; exact hsym x y)]
+  exact (cwdU_pre _ p).antisymm a b trivial trivial
+
+/-- **Transitivity holds for every triple whose three pairs are compared with the
+    same metric** — so the only way `CompareWithDensity` can be inconsistent is the
+    mixed case of the recorded finding, and `mixed_cycle_witness` shows that case is real. -/
+theorem cwd_trans_same_metric (p : Params) (a b c : Cand) (m : Bool)
+    (hab : ∀ x y, a = some x → b = some y → usesCount p.window x y = m)
+    (hbc : ∀ x y, b = some x → c = some y → usesCount p.window x y = m)
+    (hac : ∀ x y, a = some x → c = some y → usesCount p.window x y = m)
+    (h1 : 0 ≤ compareWithDensity p a b) (h2 : 0 ≤ compareWithDensity p b c) :
+    0 ≤ compareWithDensity p a c := by
+  rw [cwd_eq_cwdU m p a b hab] at h1
+  rw [cwd_eq_cwdU m p b c hbc] at h2
+  rw [cwd_eq_cwdU m p a c hac]
+  exact (cwdU_pre m p).trans a b c trivial trivial trivial h1 h2
+
 /-! ### selectPreferred -/
 
 theorem fold_selStep (cmp : Cand → Cand → Int) (l : List Cand) :
@@ -365,6 +401,9 @@ theorem mixed_preferred_witness :
     compareWithDensity wP (some w2) (some wS) = 1 := by decide
 
 /-! non-vacuity -/
+example : selectPreferred compareTips [some wS, none, some { wS with bn := 9 }, some w1] =
+    some (2, some { wS with bn := 9 }) := by decide
+example : selectPreferred (compareWithDensity wP) [some w2, some w1] = some (1, some w1) := by decide
 example : allWindowed (some w1) := by intro t h; cases h; rfl
 example : noneWindowed (some wS) := by intro t h; cases h; rfl
 example : deep wP = true := by decide
